@@ -275,7 +275,8 @@ func genV1(r *rand.Rand, kind string) core.Case {
 		if kind == "v1-byz" {
 			first, second := ch.canon(ch.ih), ch.canon(ch.ih+1)
 			if r.Intn(2) == 0 {
-				first.flaw, second.tflaw = true, true
+				fk := 1 + r.Intn(5)
+				first.flaw, second.tflaw = fk, fk
 			} else {
 				first.txv, second.ttxv = 1, 1
 			}
@@ -314,7 +315,7 @@ func genV1(r *rand.Rand, kind string) core.Case {
 				case 0:
 					sp.txv = 1
 				case 1:
-					sp.flaw = true
+					sp.flaw = 1 + r.Intn(5)
 				case 2:
 					if h > ch.ih {
 						sp.toks = ch.sigPattern(r, sigKinds[r.Intn(len(sigKinds))], h-1)
